@@ -560,6 +560,9 @@ func (x *Exec) havocAll(s *State, except func(key string) bool) {
 		if strings.HasPrefix(k, "R:") {
 			continue // the position of a range-over-string iterator: no callee can reach it
 		}
+		if k == "ghost:inpool" {
+			continue // whether an object this activation took from the pool has been put back: only Get/Put here change it
+		}
 		if strings.HasPrefix(k, "C@") {
 			base := k
 			for _, suf := range []string{"#a", "#o", "#l", "#c"} {
